@@ -70,4 +70,32 @@ theorem extEnv_eq_envOf (I : Extrema.Interp) (w : Nat) (hw : 1 ≤ w) (parab : B
       have : ¬ Sift.troughs h < 2 := fun hlt => by rw [hl'.mpr hlt] at hr; cases hr
       simp [EnvResult.toOpt, this]
 
+/-- For pad width ≥ 1 the totalisation in `extEnv` (raising envelope ↦ "no envelope") is never
+    exercised: a component is `none` exactly when `interp_envelope` returned None. -/
+theorem extEnv_faithful (I : Extrema.Interp) (w : Nat) (hw : 1 ≤ w) (parab : Bool) (h : Sig) :
+    ((extEnv I w parab h).1 = none ↔ Extrema.interpEnvelope I .upper w parab h = .none) ∧
+    ((extEnv I w parab h).2 = none ↔ Extrema.interpEnvelope I .lower w parab h = .none) := by
+  have nu := C05.interpEnvelope_never_raises I .upper w hw parab h
+  have nl := C05.interpEnvelope_never_raises I .lower w hw parab h
+  simp only [extEnv]
+  constructor
+  · cases hr : Extrema.interpEnvelope I .upper w parab h with
+    | none => simp [EnvResult.toOpt]
+    | valueError => exact absurd hr nu.1
+    | fuel => exact absurd hr nu.2
+    | ok env l e => simp [EnvResult.toOpt]
+  · cases hr : Extrema.interpEnvelope I .lower w parab h with
+    | none => simp [EnvResult.toOpt]
+    | valueError => exact absurd hr nl.1
+    | fuel => exact absurd hr nl.2
+    | ok env l e => simp [EnvResult.toOpt]
+
+/-- At pad width 0 the totalisation IS exercised: on every signal with ≥ 2 peaks the code's
+    `interp_envelope` raises while `extEnv` answers "no upper envelope". -/
+theorem extEnv_pad0_artifact (I : Extrema.Interp) (parab : Bool) (h : Sig) (hp : 2 ≤ Sift.peaks h) :
+    (extEnv I 0 parab h).1 = none ∧ Extrema.interpEnvelope I .upper 0 parab h = .valueError := by
+  have := (C05.interpEnvelope_pad0_raises I .upper parab h).1
+    (by simpa [Extrema.EMode.toMode, Extrema.modeSig, ← peaks_eq] using hp)
+  simp [extEnv, this, EnvResult.toOpt]
+
 end Compose
